@@ -151,12 +151,15 @@ def extract_reuse_info(text: str) -> ReuseInfo:
     for expression in spdx_tags.pop("spdx_expressions"):
         try:
             expressions.add(_LICENSING.parse(expression))
-        except (ExpressionError, ParseError):
+        except (ExpressionError, ParseError, IndexError) as error:
             _LOGGER.error(
                 _("Could not parse '{expression}'").format(
                     expression=expression
                 )
             )
+            if isinstance(error, IndexError):
+                # license-expression raises IndexError on empty parentheses.
+                raise ParseError(token_string=expression) from error
             raise
     for line in text.splitlines():
         for pattern in _COPYRIGHT_PATTERNS:
